@@ -58,12 +58,12 @@ def run(tier):
         items = []
         for k in range(12 if tier == "quick" else 200):
             lits = ck.rng.sample(HOSTILE, ck.rng.randint(1, 4))
-            lex = gram.simple_lex_for(["a", "b_1", "cC"])
+            lex = gram.simple_lex_for(["a", "b_1", "cC", "zz_unused", "arrow"])     # two tokens the syntax part never mentions
             body = [(2, l) for l in lits] + [(1, "a")]
             syn = [("S0", [x], 0, 0) for x in body] + [("S0", [(1, "b_1"), (0, "S0"), (2, lits[0])], 0, 0)]
             g = {"lex": lex, "syn": syn}
             i1 = b.add(g, flags=["-a"])
-            i2 = b.add(g, flags=["-a", "-no_lexer"])
+            i2 = b.add(g, flags=["-a", "-no_lexer"] if k % 2 == 0 else ["-a", "-v"])
             items.append((g, i1, i2))
         b.generate()
         okc = [i for g, i1, i2 in items for i in (i1, i2) if b.items[i]["rc"] == 0]
@@ -87,7 +87,7 @@ def run(tier):
                 if i1 in terms and i2 in terms:
                     stats["lexer_vs_nolexer_pairs"] += 1
                     if terms[i1] != terms[i2]:
-                        ck.violation("numbering differs with and without -no_lexer: %s vs %s" % (terms[i1], terms[i2]), {"bnf": b.items[i1]["text"].decode()})
+                        ck.violation("numbering differs between flag sets %s and %s: %s vs %s" % (b.items[i1]["flags"], b.items[i2]["flags"], terms[i1], terms[i2]), {"bnf": b.items[i1]["text"].decode()})
     finally:
         b.close()
     ck.proof_failures(failed, "C10 theorems")
